@@ -450,7 +450,8 @@ def char_of(pc_entry):
 
 def check_tokenizer(prog, rep):
     import tokrules as TR
-    tk = prog.lib_fn(TOK + "try_tokenize_recursive")
+    import workers
+    tk = workers.tokenizer_main(prog)
     if tk is not None:
         rep.functions.add(tk.qual)
     TR.check_plain_mode(prog, rep, "C05-R3")
